@@ -150,6 +150,101 @@ Proof.
     specialize (Hc l ND). destruct (memN p l); lia.
 Qed.
 
+(** the same for a withdrawal *)
+Lemma handle_w_seen : forall s self from a s' out res,
+  handle_w s self from a = (s', out, res) ->
+  get (st_nodes s) self <> None ->
+  has_seen s' self (a_origin a) (a_seq a) = true /\
+  (has_seen s self (a_origin a) (a_seq a) = true -> res = 0 /\ out = []) /\
+  (res = 1 -> has_seen s self (a_origin a) (a_seq a) = false) /\
+  (res <> 1 -> out = []) /\
+  (forall m, In m out -> m_from m = self /\ a_origin (m_adv m) = a_origin a /\ a_seq (m_adv m) = a_seq a) /\
+  (forall p, (length (filter (to_is p) out) <= 1)%nat) /\
+  (forall n o sq, has_seen s n o sq = true -> has_seen s' n o sq = true) /\
+  (forall n, n <> self -> seen_of s' n = seen_of s n).
+Proof.
+  intros s self from a s' out res H Hg. unfold handle_w in H.
+  destruct (get (st_nodes s) self) as [ns|] eqn:G; [|congruence].
+  assert (Hother : forall x ns' n, n <> self ->
+     seen_of {| st_nodes := set (st_nodes s) self ns'; st_links := st_links s; st_flight := x; st_now := st_now s |} n = seen_of s n).
+  { intros x ns' n Hn. unfold seen_of. simpl. rewrite get_set_other; auto. }
+  assert (Hself : forall x ns',
+     seen_of {| st_nodes := set (st_nodes s) self ns'; st_links := st_links s; st_flight := x; st_now := st_now s |} self = ns_seen ns').
+  { intros x ns'. unfold seen_of. simpl. erewrite get_set_same; eauto. }
+  assert (Hmono : forall x ns', (forall o sq, seen_has o sq (ns_seen ns) = true -> seen_has o sq (ns_seen ns') = true) ->
+     forall n o sq, has_seen s n o sq = true ->
+     has_seen {| st_nodes := set (st_nodes s) self ns'; st_links := st_links s; st_flight := x; st_now := st_now s |} n o sq = true).
+  { intros x ns' Hm n o sq Hs. unfold has_seen in *. destruct (N.eq_dec n self) as [E|E].
+    - subst. rewrite Hself. apply Hm. unfold seen_of in Hs. rewrite G in Hs. auto.
+    - rewrite Hother; auto. }
+  assert (Hs0 : has_seen s self (a_origin a) (a_seq a) = seen_has (a_origin a) (a_seq a) (ns_seen ns)).
+  { unfold has_seen, seen_of. rewrite G. auto. }
+  destruct (seen_has (a_origin a) (a_seq a) (ns_seen ns)) eqn:Seen.
+  { inversion H; subst; clear H. repeat split; fin. }
+  set (sn := ns_seen ns ++ [{| s_origin := a_origin a; s_seq := a_seq a; s_at := st_now s; s_from := from |}]) in *.
+  assert (Hmark : seen_has (a_origin a) (a_seq a) sn = true).
+  { unfold sn. rewrite seen_has_app. unfold seen_key. simpl. rewrite !N.eqb_refl. apply orb_true_r. }
+  assert (Hgrow : forall o sq, seen_has o sq (ns_seen ns) = true -> seen_has o sq sn = true).
+  { intros. unfold sn. rewrite seen_has_app. rewrite H0. auto. }
+  destruct (memN self (a_seenby a)).
+  { inversion H; subst; clear H. repeat split; fin. }
+  inversion H; subst; clear H. repeat split; fin.
+  - apply in_map_iff in H. destruct H as [p [E _]]. subst. auto.
+  - apply in_map_iff in H. destruct H as [p [E _]]. subst. auto.
+  - apply in_map_iff in H. destruct H as [p [E _]]. subst. auto.
+  - intros p.
+    assert (ND : NoDup (flood_targets s self from (a_seenby a ++ [self]))).
+    { unfold flood_targets. apply NoDup_filter. apply NoDup_neighbours. }
+    simpl. revert ND. generalize (flood_targets s self from (a_seenby a ++ [self])).
+    intros l ND.
+    assert (Hc : forall l, NoDup l ->
+       (length (filter (to_is p)
+          (map (fun q => {| m_from := self; m_to := q; m_adv := forward_w self a |}) l)) <= (if memN p l then 1 else 0))%nat).
+    { clear. induction l as [|h t IH]; intros ND; simpl; auto.
+      inversion ND; subst. specialize (IH H2). unfold to_is at 1. simpl.
+      destruct (h =? p) eqn:E.
+      - apply N.eqb_eq in E. subst. rewrite N.eqb_refl. simpl.
+        assert (memN p t = false) by (apply memN_false_iff; auto). rewrite H in IH. lia.
+      - rewrite N.eqb_sym in E. rewrite E. simpl. auto. }
+    specialize (Hc l ND). destruct (memN p l); lia.
+Qed.
+
+(** the handler a Deliver step runs: by frame type *)
+Definition hdl (cf : config) (s : state) (self from : node) (a : advert) : state * list msg * N :=
+  if is_w a then handle_w s self from a else handle cf s self from a.
+
+Lemma hdl_seen : forall cf s self from a s' out res,
+  hdl cf s self from a = (s', out, res) ->
+  get (st_nodes s) self <> None ->
+  has_seen s' self (a_origin a) (a_seq a) = true /\
+  (has_seen s self (a_origin a) (a_seq a) = true -> res = 0 /\ out = []) /\
+  (res = 1 -> has_seen s self (a_origin a) (a_seq a) = false) /\
+  (res <> 1 -> out = []) /\
+  (forall m, In m out -> m_from m = self /\ a_origin (m_adv m) = a_origin a /\ a_seq (m_adv m) = a_seq a) /\
+  (forall p, (length (filter (to_is p) out) <= 1)%nat) /\
+  (forall n o sq, has_seen s n o sq = true -> has_seen s' n o sq = true) /\
+  (forall n, n <> self -> seen_of s' n = seen_of s n).
+Proof.
+  intros cf s self from a s' out res H G. unfold hdl in H. destruct (is_w a).
+  - eapply handle_w_seen; eauto.
+  - eapply handle_seen; eauto.
+Qed.
+
+Lemma hdl_none : forall cf s self from a, get (st_nodes s) self = None -> hdl cf s self from a = (s, [], 0).
+Proof.
+  intros cf s self from a G. unfold hdl, handle_w, handle. rewrite G. destruct (is_w a); auto.
+Qed.
+
+Lemma step_deliver_hdl : forall cf s i dup,
+  step cf s (Deliver i dup) =
+  match nth_error (st_flight s) i with
+  | None => (s, [], 2)
+  | Some m =>
+      let '(s2, out, res) := hdl cf (with_flight s (if dup then st_flight s else remove_nth (st_flight s) i)) (m_to m) (m_from m) (m_adv m) in
+      (with_flight s2 (st_flight s2 ++ out), out, res)
+  end.
+Proof. reflexivity. Qed.
+
 (** steps other than expiry keep every seen-cache entry *)
 Definition expiry_op (o : op) : bool :=
   match o with Forget _ _ _ | Advance _ => true | _ => false end.
@@ -173,6 +268,16 @@ Proof.
   - inversion H; subst. auto.
 Qed.
 
+Lemma withdraw_seen : forall s n s' out x, withdraw s n = (s', out) -> seen_of s' x = seen_of s x.
+Proof.
+  intros s n s' out x H. unfold withdraw in H. destruct (get (st_nodes s) n) as [ns|] eqn:G.
+  - destruct (filter is_cidr_route (ns_locals ns)); inversion H; subst; auto.
+    unfold seen_of. simpl. destruct (N.eq_dec x n) as [E|E].
+    + subst. erewrite get_set_same by eauto. rewrite G. auto.
+    + rewrite get_set_other; auto.
+  - inversion H; subst. auto.
+Qed.
+
 Lemma replay_seen : forall cf s a b s' out x, replay cf s a b = (s', out) -> seen_of s' x = seen_of s x.
 Proof.
   intros cf s a b s' out x H. unfold replay in H. destruct (get (st_nodes s) a) as [ns|] eqn:G.
@@ -186,18 +291,22 @@ Lemma step_keeps_seen : forall cf s op n o sq,
   expiry_op op = false -> has_seen s n o sq = true -> has_seen (next cf s op) n o sq = true.
 Proof.
   intros cf s op n o sq Hop Hs. unfold next.
-  destruct op as [x|i dup|x o' sq'|d|a b|a b|x k id metric|x maxage]; simpl in *; try discriminate.
+  destruct op as [x|x|i dup|x o' sq'|d|a b|a b|x k id metric|x maxage]; try discriminate;
+    [| |rewrite step_deliver_hdl| | | |]; simpl in *.
   - destruct (announce s x) as [s' out] eqn:E. simpl. unfold has_seen in *.
     replace (seen_of (with_flight s' (st_flight s' ++ out)) n) with (seen_of s' n) by reflexivity.
     erewrite announce_seen; eauto.
+  - destruct (withdraw s x) as [s' out] eqn:E. simpl. unfold has_seen in *.
+    replace (seen_of (with_flight s' (st_flight s' ++ out)) n) with (seen_of s' n) by reflexivity.
+    erewrite withdraw_seen; eauto.
   - destruct (nth_error (st_flight s) i) as [m|] eqn:Nth; simpl; auto.
-    destruct (handle cf _ (m_to m) (m_from m) (m_adv m)) as [[s2 out] res] eqn:E. simpl.
+    destruct (hdl cf _ (m_to m) (m_from m) (m_adv m)) as [[s2 out] res] eqn:E. simpl.
     destruct (get (st_nodes s) (m_to m)) eqn:G.
-    + apply handle_seen in E; [|simpl; congruence].
+    + apply hdl_seen in E; [|simpl; congruence].
       destruct E as [_ [_ [_ [_ [_ [_ [Hm _]]]]]]].
       unfold has_seen in *. replace (seen_of (with_flight s2 (st_flight s2 ++ out)) n) with (seen_of s2 n) by reflexivity.
       apply Hm. auto.
-    + unfold handle in E. simpl in E. rewrite G in E. inversion E; subst. auto.
+    + rewrite hdl_none in E by (simpl; auto). inversion E; subst. auto.
   - destruct (valid_node s a && valid_node s b && negb (a =? b) && negb (linked (st_links s) a b)); simpl; auto.
     destruct (replay cf _ a b) as [s2 out1] eqn:E1. destruct (replay cf s2 b a) as [s3 out2] eqn:E2. simpl.
     unfold has_seen in *. replace (seen_of (with_flight s3 (st_flight s3 ++ out1 ++ out2)) n) with (seen_of s3 n) by reflexivity.
@@ -223,18 +332,18 @@ Lemma processes_spec : forall cf s op n o sq,
   processes cf s op n o sq = true ->
   has_seen s n o sq = false /\ has_seen (next cf s op) n o sq = true.
 Proof.
-  intros cf s op n o sq H. unfold processes in H. destruct op as [|i dup| | | | | |]; try discriminate.
+  intros cf s op n o sq H. unfold processes in H. destruct op as [| |i dup| | | | | |]; try discriminate.
   destruct (nth_error (st_flight s) i) as [m|] eqn:Nth; [|discriminate].
   apply andb_true_iff in H as [H H3]. apply andb_true_iff in H as [H1 H2].
   apply N.eqb_eq in H1, H3. unfold is_key in H2. apply andb_true_iff in H2 as [K1 K2]. apply N.eqb_eq in K1, K2.
-  unfold verdict, next in *. simpl in *. rewrite Nth in *.
-  destruct (handle cf _ (m_to m) (m_from m) (m_adv m)) as [[s2 out] res] eqn:E. simpl in *. subst.
+  unfold verdict, next in *. rewrite step_deliver_hdl in *. rewrite Nth in *.
+  destruct (hdl cf _ (m_to m) (m_from m) (m_adv m)) as [[s2 out] res] eqn:E. simpl in *. subst.
   destruct (get (st_nodes s) (m_to m)) eqn:G.
-  - apply handle_seen in E; [|simpl; congruence].
+  - apply hdl_seen in E; [|simpl; congruence].
     destruct E as [A [_ [B _]]]. split.
     + specialize (B eq_refl). unfold has_seen, seen_of in *. simpl in B. auto.
     + unfold has_seen in *. replace (seen_of (with_flight s2 (st_flight s2 ++ out)) (m_to m)) with (seen_of s2 (m_to m)) by reflexivity. auto.
-  - unfold handle in E. simpl in E. rewrite G in E. inversion E.
+  - rewrite hdl_none in E by (simpl; auto). inversion E.
 Qed.
 
 Lemma seen_then_never_processed : forall cf ops s n o sq,
@@ -266,12 +375,12 @@ Lemma forwards_step_le : forall cf s op n p o sq,
   (forwards_step cf s op n p o sq <= (if processes cf s op n o sq then 1 else 0))%nat.
 Proof.
   intros cf s op n p o sq. unfold forwards_step, processes, sent, verdict.
-  destruct op as [|i dup| | | | | |]; auto.
-  simpl. destruct (nth_error (st_flight s) i) as [m|] eqn:Nth; simpl; auto.
-  destruct (handle cf _ (m_to m) (m_from m) (m_adv m)) as [[s2 out] res] eqn:E. simpl.
+  destruct op as [| |i dup| | | | | |]; auto.
+  rewrite step_deliver_hdl. destruct (nth_error (st_flight s) i) as [m|] eqn:Nth; simpl; auto.
+  destruct (hdl cf _ (m_to m) (m_from m) (m_adv m)) as [[s2 out] res] eqn:E. simpl.
   destruct (get (st_nodes s) (m_to m)) eqn:G.
-  2:{ unfold handle in E. simpl in E. rewrite G in E. inversion E; subst. simpl. lia. }
-  apply handle_seen in E; [|simpl; congruence].
+  2:{ rewrite hdl_none in E by (simpl; auto). inversion E; subst. simpl. lia. }
+  apply hdl_seen in E; [|simpl; congruence].
   destruct E as [_ [_ [_ [Hno [Hfrom [Hone _]]]]]].
   assert (Hle : (length (filter (fwd_to n p o sq) out) <= length (filter (to_is p) out))%nat).
   { clear. induction out as [|h t IH]; simpl; auto.
